@@ -389,8 +389,4 @@ func handleFlagsAliases() {
 	if viper.GetInt("ca") != 1 && viper.GetInt("max-concurrent-assets") == 1 {
 		viper.Set("max-concurrent-assets", viper.GetInt("ca"))
 	}
-
-	if viper.GetInt("msr") != 20 && viper.GetInt("min-space-required") == 20 {
-		viper.Set("min-space-required", viper.GetInt("msr"))
-	}
 }
